@@ -4,9 +4,10 @@ from traits.api import (HasTraits, Instance, List, Dict, Set, CStr, Int, Propert
 
 
 class NodeBase(HasTraits):
+    # the metadata values are DEFINED BUT FALSY (0, ""): "+name" selects the traits that define the metadata at all
     # comparison_mode none: re-assigning the very same object is an event too (old is new)
-    child = Instance("NodeBase", tracked=True, comparison_mode=ComparisonMode.none)
-    kids = List(Instance("NodeBase"), ltracked=True)
+    child = Instance("NodeBase", tracked=0, comparison_mode=ComparisonMode.none)
+    kids = List(Instance("NodeBase"), ltracked="")
     # (Dict traits are copied by reference unless told otherwise; List / Set / Instance default to copy="deep")
     d = Dict(CStr, Instance("NodeBase"), copy="deep")
     # compared by IDENTITY: assigning another set object - equal or not - is a change
